@@ -9,7 +9,7 @@ import sys, os, json, subprocess
 HERE = os.path.dirname(os.path.abspath(__file__))
 sys.path.insert(0, HERE)
 sys.path.insert(0, '/verif/lib')
-from tower import Fp, Quad, Cubic, fpow, target_field, fsqrt
+from tower import Fp, Quad, Cubic, fpow, target_field, fsqrt, sqrt_p
 
 OPS = {'f_de': 1, 'sw_de': 2, 'te_de': 3, 'zc_de': 4, 'po_de': 5, 'sw_check': 6, 'te_check': 7,
        'sw_revalid': 8, 'te_revalid': 9}
@@ -377,6 +377,50 @@ def point_mutations(rng, E, bs, comp, kind):
     return out
 
 
+def special_rhs_x(E, rng, per_class):
+    """x = s + t u in Fp2 = Fp[u]/(u^2 - nr) with Im g(x) = 0 (g(x) in the base field: residue / non-residue of Fp) or with
+    Re g(x) = 0 (purely imaginary g(x)); both conditions are quadratics in one coordinate once the other is fixed"""
+    F = E.F; p = F.p; nr = F.nr if hasattr(F, 'nr') else None
+    a0, a1 = E.a; b0, b1 = E.b
+    want = {'rhs_base_qnr': per_class, 'rhs_base_qr': per_class, 'rhs_imaginary': per_class}
+    out = []
+    tries = 0
+    while any(v > 0 for v in want.values()) and tries < 4000:
+        tries += 1
+        if tries % 2:
+            # Im g = 3 t s^2 + a1 s + (nr t^3 + a0 t + b1) = 0, t fixed
+            t = rng.randrange(1, p)
+            A, B, C = 3 * t % p, a1, (nr * t * t * t + a0 * t + b1) % p
+            fix = lambda s_: (s_, t)
+        else:
+            # Re g = 3 nr s t^2 + a1 nr t + (s^3 + a0 s + b0) = 0, s fixed
+            s0 = rng.randrange(1, p)
+            A, B, C = 3 * nr * s0 % p, a1 * nr % p, (s0 * s0 * s0 + a0 * s0 + b0) % p
+            fix = lambda t_: (s0, t_)
+        if A == 0:
+            continue
+        d = sqrt_p((B * B - 4 * A * C) % p, p)
+        if d is None:
+            continue
+        z = (-B + (d if rng.randrange(2) else -d)) * pow(2 * A, -1, p) % p
+        x = fix(z)
+        g = E.rhs(x)
+        if tries % 2:
+            assert g[1] == 0
+            if g[0] == 0:
+                continue
+            cl = 'rhs_base_qr' if pow(g[0], (p - 1) // 2, p) == 1 else 'rhs_base_qnr'
+        else:
+            assert g[0] == 0
+            if g[1] == 0:
+                continue
+            cl = 'rhs_imaginary'
+        if want[cl] > 0:
+            want[cl] -= 1
+            out.append((x, cl))
+    return out
+
+
 def gen_curve(rng, scale, cid, c, op_de, op_ck):
     kind = c['kind']
     E = SW(c) if kind == 'sw' else TE(c)
@@ -410,6 +454,14 @@ def gen_curve(rng, scale, cid, c, op_de, op_ck):
             bs = enc_ext(F.p, F.co(y), 2, rng.choice([0, 128]))
         val = rng.randrange(2)
         yield op_de, curve_args(cid, c, 1, val, rng.randrange(2)) + [bs], 'de/no_root/c1v%d' % val
+    if kind == 'sw' and c['deg'] == 2:
+        # quadratic-extension coordinates: x whose right-hand side g(x) = x^3 + a x + b lies in the BASE field (c1 = 0; a
+        # base-field non-residue still has a - purely imaginary - root in the extension, a residue a base-field one) or is
+        # purely imaginary (c0 = 0): the special cases of QuadExtField::sqrt.  Solved here, not sampled (probability 1/p).
+        for x, xcl in special_rhs_x(E, rng, 1 if lite else 2):
+            bs = enc_ext(F.p, F.co(x), 1, rng.choice([0, 128]))
+            for val in ((0,) if lite else (0, 1)):
+                yield op_de, curve_args(cid, c, 1, val, rng.randrange(2)) + [bs], 'de/%s/c1v%d' % (xcl, val)
     if kind == 'te':
         # TE: denominator a - d y^2 = 0 has no solution on complete curves; y = +-1 gives x = 0 (identity, order 2)
         for y in (1, F.p - 1, 0):
